@@ -123,7 +123,7 @@ def gen_program(rng, lang: str, idx: int, max_small: int = 10):
 
     if lang == "python":
         lines += [f'"""module {idx}"""', "import os", ""]
-        n_consts = rng.choice([0, 1, 2]) if rng.random() < 0.8 else rng.choice([8, 9, 9, 10, 10, 12])
+        n_consts = rng.choice([0, 1, 2]) if rng.random() < 0.7 else rng.choice([7, 8, 9, 9, 9, 10, 10, 12])
         for _ in range(n_consts):
             site(f"MAX_{len(lines)} = «LIT»", "upperConstDirect", L())
         facts["upperConsts"] = n_consts
@@ -137,7 +137,8 @@ def gen_program(rng, lang: str, idx: int, max_small: int = 10):
                 inner_dicts += 1
         lines += ["", "", "class Config:"]
         lookalike("    ENABLED = True", "boolean")
-        site("    LIMIT_%d = «LIT»" % len(lines), "upperConstDirect", L())
+        for _ in range(rng.choice([1, 1, 2, 3])):      # class-level constants: exempt positions, but not what makes a definitions *module*
+            site("    LIMIT_%d = «LIT»" % len(lines), "upperConstDirect", L())
         lines += ["    def run(self, xs, a, compute):"]
         for _ in range(inner_dicts):
             py_dict("        ")
@@ -369,7 +370,7 @@ def run(tier: str, seed: int, st: core.ProofStatus) -> core.Result:
                 "dict displays with 0-6 integer keys each, module level or nested); TS/JS declarations with several declarators; non-trivial = at least "
                 "one reported and one exempt/allowed site; distinct by program text + config")
     rng = core.sub_rng(seed, PROP, tier)
-    n = 120 if tier == "quick" else 2000
+    n = 400 if tier == "quick" else 3000
     work, metas = [], []
     root = core.scratch_dir("c02")
     for i in range(n):
